@@ -549,6 +549,14 @@ def prog_misc2(e, which):
         return T('\\let\\mya=') + [P()] + T('\\mya\\def\\mya{') + [P()] + T('}\\mya')
     if which == 'let-char-relet':
         return T('\\def\\myb{') + [P()] + T('}\\let\\mya=') + [P()] + T('\\mya\\let\\mya\\myb\\mya')
+    if which == 'hash-parameterless-newcommand':       # ## in a body without parameters of its own
+        return T('\\def\\mya{\\newcommand{\\myb}[1]{[##1]}}\\mya\\myb{') + [P()] + T('}') + [P()]
+    if which == 'hash-parameterless-def':
+        return T('\\def\\mya{\\def\\myb##1##2{[##2##1]}}\\mya\\myb') + [P(), P()]
+    if which == 'hash-parameterless-deep':
+        return T('\\def\\mya{\\def\\myb{\\def\\myc####1{[####1]}}}\\mya\\myb\\myc ') + [P()]
+    if which == 'hash-parameterless-literal':
+        return T('\\def\\mya{') + [P()] + T('##') + [P()] + T('}\\def\\myb#1#2#3{[#3#1]}\\expandafter\\myb\\mya')
     if which == 'call-last-token':
         return T('\\def\\mya{') + [P()] + T('}') + [P()] + T('\\mya')
     raise AssertionError(which)
@@ -556,7 +564,8 @@ def prog_misc2(e, which):
 
 MISC2 = ['call-in-delimited-arg', 'macro-as-arg', 'optional-with-group', 'four-args-optional', 'newcommand-star', 'renew-optional', 'gdef-in-body', 'def-order',
          'two-token-delimiter', 'brace-around-param', 'csname-call-with-arg', 'expandafter-over-args', 'call-last-token', 'expandafter-reuse', 'expandafter-reuse2', 'renew-def', 'renew-let',
-         'renew-newcommand-noargs', 'def-after-newcommand', 'let-char-redef', 'let-char-relet']
+         'renew-newcommand-noargs', 'def-after-newcommand', 'let-char-redef', 'let-char-relet',
+         'hash-parameterless-newcommand', 'hash-parameterless-def', 'hash-parameterless-deep', 'hash-parameterless-literal']
 
 
 def h_misc2(e, which):
